@@ -19,9 +19,10 @@
    the C06_any_section_* theorems: the last declaration of a child wins, a declaration of object is dropped
    (effective ds), and everything above holds with effective (decls gs tr) in place of decls gs tr; every accepted token
    list made of names and dashes is such a section (C06_accepted_names_are_sections).
-   D31 (open, repair proposed): TrajectoryParser checks a state fluent's argument types through a dict keyed by the object
-   NAME; without a repeated argument that is the positional rule (C06_site_trajectory_fluent_partial), with one it is not
-   (C06_site_trajectory_fluent_refuted: an ill-typed fluent accepted, a well-typed one refused).
+   D31 (repaired, 3c74fae): TrajectoryParser checked a state fluent's argument types through a dict keyed by the object
+   NAME; now argument i is checked against parameter i (C06_site_trajectory_fluent, C06_sites_trajectory_fluent_accepts_subtypes).
+   The old check was the positional rule only without a repeated argument (C06_site_trajectory_fluent_before_D31_agrees); with one
+   it accepted an ill-typed fluent and refused a well-typed one (C06_site_trajectory_fluent_before_D31_refuted).
    TrajectoryParser performs NO type check on facts (Model/TypeSites.trajectory_fact): not a place that checks types, so
    the property's sentence does not speak about it; the check compares it with the model only. *)
 From Coq Require Import List String Bool Relations Permutation PrimFloat.
@@ -161,11 +162,13 @@ Theorem C06_site_problem_fluent : forall (dom : mdomain) objs f args,
                  forall t r, In (t, r) (combine tys (dvalues sg)) -> is_sub_type (d_types dom) t r = true.
 Proof. exact problem_fluent_lemma. Qed.
 
-(* trajectory fluents (TrajectoryParser.parse_grounded_numeric_fluent with a problem), unary *)
-Theorem C06_site_trajectory_fluent : forall (dom : mdomain) objs f v r a t,
-  dget (d_funcs dom) f = Some [(v, r)] -> type_of_name dom objs a = Ok t ->
-  (trajectory_fluent dom objs f [a] = Ok tt <-> is_sub_type (d_types dom) t r = true).
-Proof. exact trajectory_fluent_unary_lemma. Qed.
+(* trajectory fluents (TrajectoryParser.parse_grounded_numeric_fluent with a problem, after the repair D31): the same *)
+Theorem C06_site_trajectory_fluent : forall (dom : mdomain) objs f args,
+  trajectory_fluent dom objs f args = Ok tt <->
+  exists sg tys, dget (d_funcs dom) f = Some sg /\ List.length args = List.length sg /\
+                 mapM (type_of_name dom objs) args = Ok tys /\
+                 forall t r, In (t, r) (combine tys (dvalues sg)) -> is_sub_type (d_types dom) t r = true.
+Proof. exact trajectory_fluent_lemma. Qed.
 
 (* ... and on a domain whose types come from a well-formed section, "passes is_sub_type" means "is a subtype":
    an object is in the range of a quantifier over ty exactly when its declared type is a subtype of ty *)
@@ -193,35 +196,33 @@ Theorem C06_sites_fluent_accepts_subtypes : forall gs tr (dom : mdomain) objs f 
                   forall t r, In (t, r) (combine tys (dvalues sg)) -> subtype (decls gs tr) t r).
 Proof. exact site_fluent_subtype_lemma. Qed.
 
-(* trajectory fluents with ANY number of arguments, none repeated: the positional rule (finding D31 is outside) *)
-Theorem C06_site_trajectory_fluent_partial : forall (dom : mdomain) objs f args,
-  NoDup args ->
+Theorem C06_sites_trajectory_fluent_accepts_subtypes : forall gs tr (dom : mdomain) objs f args,
+  wf_section gs tr -> parse_types (render gs tr) = Ok (d_types dom) ->
   (trajectory_fluent dom objs f args = Ok tt <->
    exists sg tys, dget (d_funcs dom) f = Some sg /\ List.length args = List.length sg /\
                   mapM (type_of_name dom objs) args = Ok tys /\
-                  forall t r, In (t, r) (combine tys (dvalues sg)) -> is_sub_type (d_types dom) t r = true).
-Proof. exact trajectory_fluent_partial_lemma. Qed.
+                  forall t r, In (t, r) (combine tys (dvalues sg)) -> subtype (decls gs tr) t r).
+Proof. exact site_trajectory_fluent_subtype_lemma. Qed.
 
-(* the full statement (every argument list) fails: D31.  With f (?x - a ?y - b), g (?x - a ?y - a ?z - b), oa - a, ob - b:
-   (f oa oa) is accepted although oa is no b, the well-typed (g oa oa ob) is refused.  trajectory_fluent_positional is
-   the function after the proposed repair (proposed_fixes/D31.diff): the positional rule for every argument list. *)
-Theorem C06_site_trajectory_fluent_refuted :
+(* the check before the repair D31 (name-keyed dict) agreed with the current one on every argument list WITHOUT a repeat ... *)
+Theorem C06_site_trajectory_fluent_before_D31_agrees : forall (dom : mdomain) objs f args,
+  NoDup args -> trajectory_fluent_before_D31 dom objs f args = trajectory_fluent dom objs f args.
+Proof. exact trajectory_fluent_nodup_lemma. Qed.
+
+(* ... and not with one.  With f (?x - a ?y - b), g (?x - a ?y - a ?z - b), oa - a, ob - b: (f oa oa) was accepted although
+   oa is no b, the well-typed (g oa oa ob) was refused (finding D31, repaired; the witness is a regression case of every run) *)
+Theorem C06_site_trajectory_fluent_before_D31_refuted :
   exists (dom : mdomain) (objs : pydict string),
-    (exists f args, trajectory_fluent dom objs f args = Ok tt /\
-                    trajectory_fluent_positional dom objs f args = Err EAssert) /\
-    (exists f args, trajectory_fluent dom objs f args = Err EAssert /\
-                    trajectory_fluent_positional dom objs f args = Ok tt).
+    (exists f args, trajectory_fluent_before_D31 dom objs f args = Ok tt /\
+                    trajectory_fluent dom objs f args = Err EAssert) /\
+    (exists f args, trajectory_fluent_before_D31 dom objs f args = Err EAssert /\
+                    trajectory_fluent dom objs f args = Ok tt).
 Proof. exact trajectory_fluent_refuted_lemma. Qed.
 
-Theorem C06_site_trajectory_fluent_repaired : forall (dom : mdomain) objs f args,
-  trajectory_fluent_positional dom objs f args = Ok tt <->
-  exists sg tys, dget (d_funcs dom) f = Some sg /\ List.length args = List.length sg /\
-                 mapM (type_of_name dom objs) args = Ok tys /\
-                 forall t r, In (t, r) (combine tys (dvalues sg)) -> is_sub_type (d_types dom) t r = true.
-Proof. exact trajectory_fluent_positional_lemma. Qed.
-
 Example C06_site_trajectory_fluent_example :
-  NoDup ["oa"; "ob"] /\ trajectory_fluent t_dom t_objs "f" ["oa"; "ob"] = Ok tt /\
+  trajectory_fluent t_dom t_objs "f" ["oa"; "oa"] = Err EAssert /\
+  trajectory_fluent t_dom t_objs "g" ["oa"; "oa"; "ob"] = Ok tt /\
+  trajectory_fluent t_dom t_objs "f" ["oa"; "ob"] = Ok tt /\
   trajectory_fluent t_dom t_objs "f" ["ob"; "oa"] = Err EAssert.
 Proof. exact trajectory_fluent_example_lemma. Qed.
 
@@ -422,9 +423,9 @@ Print Assumptions C06_subtypeb_is_closure.
 Print Assumptions C06_oracle_is_closure.
 Print Assumptions C06_oracle_forest.
 Print Assumptions C06_oracle_cyclic.
-Print Assumptions C06_site_trajectory_fluent_partial.
-Print Assumptions C06_site_trajectory_fluent_refuted.
-Print Assumptions C06_site_trajectory_fluent_repaired.
+Print Assumptions C06_sites_trajectory_fluent_accepts_subtypes.
+Print Assumptions C06_site_trajectory_fluent_before_D31_agrees.
+Print Assumptions C06_site_trajectory_fluent_before_D31_refuted.
 Print Assumptions C06_site_trajectory_fluent_example.
 Print Assumptions C06_site_effects_selected_by_type.
 Print Assumptions C06_site_two_quantifiers_example.
